@@ -922,14 +922,16 @@ theorem Inv_init : Inv St.init := by
   match c with
   | 0 => unfold CellOK; show RefOK .prog 2 (H St.init 0); unfold RefOK; decide
   | 1 => unfold CellOK; show RefOK .prog 1 (H St.init 1); unfold RefOK; decide
-  | c + 2 =>
+  | 2 => unfold CellOK; show RefOK .prog 1 (H St.init 2); unfold RefOK; decide
+  | 3 => unfold CellOK; show RefOK .prog 1 (H St.init 3); unfold RefOK; decide
+  | c + 4 =>
     unfold CellOK
-    have hm : metaOf St.init (c + 2) = none := by
+    have hm : metaOf St.init (c + 4) = none := by
       unfold metaOf St.init
       simp
     rw [hm]
-    show H St.init (c + 2) = 0
-    unfold H St.init heapCnt cnt cBase cProg
+    show H St.init (c + 4) = 0
+    unfold H St.init heapCnt cnt cBase cProg cFProg cFBase
     simp [List.count_append, List.count_replicate]
 
 end NV.C06
